@@ -38,7 +38,7 @@ DRV_STUB = ('cr.c driver over abstract stage kernels (contract: consume <= avail
             'the L3 kernel obligations) and FIFO payload abstracted (memcpy/memmove/memset no-ops, unbounded allocation; fifo_lemma covers payload and growth)')
 
 
-def drv(op, ns=1, item=4, nbits=31, ratio=None, ratio_bits=None, solver=None, timeout=300, tiers=('quick', 'thorough')):
+def drv(op, ns=1, item=4, nbits=31, ratio=None, ratio_bits=None, solver=None, timeout=900, tiers=('quick', 'thorough')):
     """one cr.c driver call (cr_drv.c) from any state satisfying the accounting invariant"""
     defs = ['-DVF_OP=%d' % op, '-DVF_NS=%d' % ns, '-DVF_ITEM=%d' % item, '-DVF_NBITS=%d' % nbits]
     name = 'drv_%s_ns%d_r%d_n%d' % (DRV_OPS[op], ns, item, nbits)
@@ -111,7 +111,7 @@ KERN_STUB = ('stage state constructed directly inside the stage envelope ENV(kin
              'coefficient table size); sample and coefficient DATA nondeterministic (count/position assertions hold for all data)')
 
 
-def kern_obl(kern, order=1, hn=8, split=0, hiprec=0, fixed=0, maxin=4, engine='cr32.c', tight=0, ntaps=4, timeout=600, tiers=('quick', 'thorough')):
+def kern_obl(kern, order=1, hn=8, split=0, hiprec=0, fixed=0, maxin=4, engine='cr32.c', tight=0, ntaps=4, timeout=1200, tiers=('quick', 'thorough')):
     defs = ['-DVF_KERN=%d' % kern, '-DVF_ORDER=%d' % order, '-DVF_HN=%d' % hn, '-DVF_SPLIT=%d' % split, '-DVF_HIPREC=%d' % hiprec,
             '-DVF_FIXED=%d' % fixed, '-DVF_MAXIN=%d' % maxin, '-DVF_NTAPS=%d' % ntaps, '-DVF_ENGINE_C="%s"' % engine]
     if tight:
@@ -276,7 +276,7 @@ def kern_poly_obl(k, engine='cr64.c', n=10, pb=6):
                stubs=['generated table vf_coefs[i] == i'], funcs=['cr-core.c:vpoly%d' % k, 'poly-fir.h', 'cr.h:coef'])
 
 
-def init_qq_obl(timeout=600, may_fail=False, kf=None):
+def init_qq_obl(timeout=1500, may_fail=False, kf=None):
     return Obl(name='init_quick_recipe' + ('_allocfail' if may_fail else '') + ('_probe' if kf else ''), src='init_qq.c', unwind=4, timeout=timeout, extra=KISSAT,
                defs=['-DVF_MAY_FAIL'] if may_fail else [], malloc_may_fail=may_fail, kf=kf,
                desc='the real _soxr_init (cr.c) for the quick recipe with symbolic io_ratio and gain: the cubic stage it builds is inside ENV(cubic) (progress, context, pre-load, gain once)',
@@ -285,7 +285,7 @@ def init_qq_obl(timeout=600, may_fail=False, kf=None):
                funcs=['cr.c:_soxr_init', 'cr.c:_soxr_close', 'fifo.h:fifo_create', 'fifo.h:fifo_reserve'])
 
 
-def dft_obl(L=1, M=1, dbl=0, simd=0, dftlen=32, timeout=600, tiers=('quick', 'thorough'), fdm=0, bigocc=0):
+def dft_obl(L=1, M=1, dbl=0, simd=0, dftlen=32, timeout=1500, tiers=('quick', 'thorough'), fdm=0, bigocc=0):
     return Obl(name='dft_stage_L%d_M%d%s_%s%s_n%d%s' % (L, M, 'fd' if fdm else '', 'd' if dbl else 'f', 's' if simd else '', dftlen, '_bigfifo' if bigocc else ''), src='dft_step.c', checks='full',
                defs=(['-DVF_BIGOCC'] if bigocc else []) + ['-DVF_FDM=%d' % fdm, '-DVF_L=%d' % L, '-DVF_M=%d' % M, '-DVF_DBL=%d' % dbl, '-DVF_SIMD=%d' % simd, '-DVF_DFTLEN=%d' % dftlen], unwind=dftlen + 4,
                timeout=timeout, tiers=tiers, ndebug=False,
